@@ -56,20 +56,16 @@ type concRec struct {
 	ann  string
 }
 
-// concChild is the re-executed child: spec = seed|first case id|output file.
+// concChild is the re-executed child: spec = seed|first case id|output file|layout directory.
 func concChild(spec string) {
-	parts := strings.SplitN(spec, "|", 3)
+	parts := strings.SplitN(spec, "|", 4)
 	seed, _ := strconv.ParseUint(parts[0], 10, 64)
 	first, _ := strconv.ParseInt(parts[1], 10, 64)
 	out, err := os.Create(parts[2])
 	if err != nil {
 		panic(err)
 	}
-	dir, err := os.MkdirTemp(tmpBase(), "vh-c19-conc-*")
-	if err != nil {
-		panic(err)
-	}
-	defer os.RemoveAll(dir)
+	dir := parts[3] // made and removed by the parent (a crashed child cleans nothing up)
 	st, err := oci.New(dir)
 	if err != nil {
 		panic(err)
@@ -170,7 +166,6 @@ func concChild(spec string) {
 	}
 	bw.Flush()
 	out.Close()
-	os.RemoveAll(dir)
 	os.Exit(0)
 }
 
@@ -203,10 +198,15 @@ func runConc(a *Args, w *CaseWriter, first int64) {
 		panic(err)
 	}
 	outFile := fmt.Sprintf("%s/concurrency.jsonl", a.Out)
+	dir, err := os.MkdirTemp(tmpBase(), "vh-c19-conc-*")
+	if err != nil {
+		panic(err)
+	}
+	defer os.RemoveAll(dir)
 	ctx, cancel := context.WithTimeout(context.Background(), 120*time.Second)
 	defer cancel()
 	cmd := exec.CommandContext(ctx, self)
-	cmd.Env = append(os.Environ(), fmt.Sprintf("%s=%d|%d|%s", concEnv, a.Seed, first, outFile), "GOMAXPROCS=8")
+	cmd.Env = append(os.Environ(), fmt.Sprintf("%s=%d|%d|%s|%s", concEnv, a.Seed, first, outFile, dir), "GOMAXPROCS=8")
 	var stderr bytes.Buffer
 	cmd.Stderr = &stderr
 	t0 := time.Now()
